@@ -8,6 +8,12 @@ ENGINES = [
 ]
 NOT_APPLICABLE = {}
 CLAIMED = {
+ "C17": {
+  "engine": "tlc + csl-conform (spec/sys/MetadataJson.tla, spec/lib/MdTrees.tla, CDDL.tla 'fresh' profile, ConwaySchema.tla; spec/mc/MC_MetadataJson.tla, MC_Codec.tla; spec/trace/Trace_MetadataJson.tla, Trace_Codec.tla; harness json + codec drivers)",
+  "technique": "the three metadata schemas, the two datum schemas and the chunking helpers are transcribed as total functions over abstract trees (strings as byte sequences, integers as BigNat, number literals as text) with InSchema / NormalForm written separately; TLC checks on a bounded universe that the conversions are mutually inverse where the property says so and fail exactly outside InSchema, and emits every tree as a scenario; the real conversions are run on them and on seeded random trees, and the trace spec compares every result (value, error, reverse conversion) with the specification's functions; for the generic to_json / from_json the schema interpreter classifies each instance (fresh / retained encoding detail / map not ascending / content the JSON form cannot carry) and demands equality and identical bytes, content equality, or a fresh-form re-encoding accordingly, plus a stable second pass",
+  "text": "5146 model cases (all laws hold on the specification) + 2500 (quick) / 20000 random trees = about 33000 conversion events, and about 6200 typed values over 30 types.",
+  "note": "Trusted: TLC, MetadataJson.tla (transcribed from the doc comments and cardano-node's schema description; agreement with the code on every generated case is itself evidence), CBOR.tla, serde_json in the harness for text -> tree, harness logging (--selftest alters recorded results). Known finding: the JSON form of a Plutus script drops the language version. Duplicate member names and documents deeper than 3 are not explored.",
+ },
  "C01": {
   "engine": "tlc + csl-conform (spec/lib/CDDL.tla, ConwaySchema.tla, CDDLGen.tla, CBOR.tla; spec/mc/MC_Codec.tla; spec/trace/Trace_Codec.tla; harness codec driver)",
   "technique": "the Conway wire format is a schema value in TLA+ (ConwaySchema) with an interpreter (CDDL.tla); TLC enumerates each-choice instances of 20+ typed schemas (one variant / optional field / integer width class / collection size class away from a default, to schema depth 3 or 5) and checks on the model that each conforms; the real decoders take each instance (and typed values constructed first through the API, and every transaction the real builder emitted), and the trace spec demands decode(encode(v)) = v, byte-identical re-encoding, and identical behaviour of the hex entry points, with the encoded bytes parsed by CBOR.tla",
